@@ -20,7 +20,7 @@ pub fn scenario_sets(tier: Tier) -> Vec<Entry> {
     for n in tier.pick(vec![2usize, 3, 4], vec![2, 3, 4, 6, 9]) {
         for v6 in [false, true] {
             for port in [None, Some(4242u16)] {
-                let cfg = super::c01::Cfg { n, v6, port, placement: (n % 3) as u8, announcer: 0, searcher: n - 1, announcer2: if n >= 3 { Some(1) } else { None }, announcer2_gap_ms: 500, offset_ms: 1000, reannounce_ms: None, matrix: None, rng_seed: 1 };
+                let cfg = super::c01::Cfg { n, v6, port, placement: (n % 3) as u8, announcer: 0, searcher: n - 1, announcer2: if n >= 3 { Some(1) } else { None }, announcer2_gap_ms: 500, offset_ms: 1000, reannounce_ms: None, matrix: None, usage: 0, rng_seed: 1 };
                 let nodes = (0..n).map(|i| super::c01::node_addr(i, v6)).collect();
                 let c2 = cfg.clone();
                 v.push(Entry { desc: json!({"set":"C01-mesh","n":n,"v6":v6,"port":port}), real_nodes: nodes, run: Box::new(move || super::c01::run_cfg(&c2, &[None], &[]).0) });
